@@ -11,9 +11,9 @@
 EXTENDS Attest, Json
 TraceLog == ndJsonDeserialize("trace.ndjson")
 VARIABLE l
-tvars == <<c, r, l>>
-TraceInit == l = 2 /\ TraceLog[1].ev = "reset" /\ c = 0 /\ r = 0
-TraceNext == l <= Len(TraceLog) /\ TraceLog[l].ev = "step" /\ l' = l + 1 /\ UNCHANGED <<c, r>>
+tvars == <<c, r, hist, l>>
+TraceInit == l = 2 /\ TraceLog[1].ev = "reset" /\ c = 0 /\ r = 0 /\ hist = 0
+TraceNext == l <= Len(TraceLog) /\ TraceLog[l].ev = "step" /\ l' = l + 1 /\ UNCHANGED <<c, r, hist>>
 TraceSpec == TraceInit /\ [][TraceNext]_tvars
 Q16(q) == [q EXCEPT !.eq = S(q.eq)]
 Is(p) == TraceLog[l].p = p
